@@ -234,6 +234,6 @@ def fold_load_cn_region(repo, reads, region, in_region=lambda region, read, pref
     f = repo.func("sam::Sample._load_cn_region")
     me = Obj(_dump_cn=None, _prefix="", gene=Obj(chr="22", name="G"), path="in.bam")
     fn = Lifted(f, funcs={"pysam.AlignmentFile": sam_file_stub(reads, indexed), "chr_prefix": lambda c, names: "", "_in_region": in_region,
-                          "defaultdict": collections.defaultdict})
+                          "defaultdict": collections.defaultdict, "os.path.abspath": lambda q: "/data/" + str(q), "os.path.realpath": lambda q: "/data/" + str(q)})
     out = fn(me, "in.bam", None, _Region(*region))
     return out if out is not None else me._dump_cn
